@@ -575,6 +575,11 @@ class WebSocketResponse(StreamResponse, Generic[_DecodeText]):
         """Set the close code and close the transport."""
         self._close_code = code
         self._close_transport()
+        if code == WSCloseCode.ABNORMAL_CLOSURE:
+            # Nothing more can be said to the peer: do not wait for it to
+            # read what is still buffered (it may never do so).
+            if self._req is not None and self._req.transport is not None:
+                self._req.transport.abort()
 
     def _close_transport(self) -> None:
         """Close the transport."""
@@ -634,7 +639,8 @@ class WebSocketResponse(StreamResponse, Generic[_DecodeText]):
             except asyncio.TimeoutError:
                 raise
             except EofStream:
-                self._close_code = WSCloseCode.OK
+                if not self._closed:  # keep the code close() has reported
+                    self._close_code = WSCloseCode.OK
                 await self.close()
                 return WS_CLOSED_MESSAGE
             except WebSocketError as exc:
